@@ -112,6 +112,9 @@ def assertion(B, out):
 
 
 def run_task(task):
+    if task["params"].get("mode") == "models":
+        from checks import c11_models
+        return c11_models.run_task(task)
     from engine import oracles
     oracles.install()
     net = symnet.family(task["family"])
@@ -136,6 +139,9 @@ def run_task(task):
 
 
 def replay(rec):
+    if rec["params"].get("mode") == "models":
+        from checks import c11_models
+        return c11_models.replay(rec)
     B = ConcreteNet.from_bnet(rec["rules"])
     S = tuple((None if rec["hist"].get(f"s{i}", -1) < 0 else int(rec["hist"][f"s{i}"])) for i in range(B.n))
     out = execute(rec["rules"], S, B.names)
@@ -154,6 +160,20 @@ def tasks(tier, seed, selftest=False):
         return T
     for cube in common.cubes(24, 4 if q else 6):
         T.append({"prop": PROP, "family": "U3", "label": "U3", "timebox": 40 if q else 900, "seed": seed, "cube": cube, "params": {}})
+    # published models: percolate_space / percolate_space_strict against the least fixed point computed by z3 over all
+    # states (checks/c11_models.py)
+    import glob
+    import os
+    mdir = os.path.join(os.environ.get("VERIF_REPO", "/repo"), "models/bbm-bnet-inputs-true")
+    paths = sorted(glob.glob(os.path.join(mdir, "*.bnet")), key=os.path.getsize)
+    small, mid, large = paths[:120], paths[120:180], paths[180:]
+    for i in range(0, len(small), 12):
+        T.append({"prop": PROP, "family": "-", "label": "models/small", "timebox": 15, "seed": seed, "params": {"mode": "models", "models": small[i:i + 12], "nspaces": 6}})
+    for i in range(0, len(mid), 4):
+        T.append({"prop": PROP, "family": "-", "label": "models/medium", "timebox": 20, "seed": seed, "params": {"mode": "models", "models": mid[i:i + 4], "nspaces": 3 if q else 6}})
+    if not q:
+        for pth in large:
+            T.append({"prop": PROP, "family": "-", "label": "models/large", "timebox": 120, "seed": seed, "params": {"mode": "models", "models": [pth], "nspaces": 4}})
     return T
 
 
@@ -162,6 +182,7 @@ def main(tier, seed, t0, selftest=False):
     return common.finish(PROP, tier, seed, "model_checking", results, t0, selftest=selftest, functions=FUNCTIONS,
                          bounds={"families": "U2 exhaustive (all 9 subspaces, symbolic); U3 cubes time-boxed (quick) / long (thorough), all 27 subspaces symbolic",
                                  "fine mode": "update-function BDD handles carry (variable, restriction space); is_true/is_false/r_restrict are observations over the symbolic truth table",
-                                 "outside": "n > 3; percolation_conflicts (not named by the property)"},
+                                 "published models": "120 smallest models x 21 spaces, 60 medium models x 12 spaces (quick); all 210 models (thorough): percolate_space and percolate_space_strict equal the least fixed point computed by z3 constant-tests over all states (empty space, node spaces, single-variable spaces of both polarities, multi-variable spaces some of which conflict with the dynamics)",
+                                 "outside": "n > 3 for LDOI tables / drivers / function_eval (symbolic families only); percolation_conflicts (not named by the property)"},
                          assumptions=["AEON Percolation.percolate_subspace: its answer is an observation checked against PERC on the representative (not class-generalised beyond the observed value)",
                                       "AEON BDD r_restrict/is_true/is_false have truth-table semantics (checked on the representative at every call)"])
